@@ -408,7 +408,8 @@ def run_check(prop, tier, verif_seed, workers=None, runs=None, budget_s=None):
         for item in v["violations"]:
             key = (item["invariant"], json.dumps(item.get("tags", {}), sort_keys=True))
             by_inv.setdefault(key, []).append((v, item))
-    os.makedirs(os.path.join(VERIF_DIR, "replays"), exist_ok=True)
+    replay_dir = os.environ.get("VERIF_REPLAY_DIR") or os.path.join(VERIF_DIR, "replays")
+    os.makedirs(replay_dir, exist_ok=True)
     n_violation_runs = len(viols)
     handled_inv = {}
     def _grp_key(kv):
@@ -453,7 +454,7 @@ def run_check(prop, tier, verif_seed, workers=None, runs=None, budget_s=None):
             "repo": boot.REPO,
         }
         name = f"{prop}-{hashlib.sha256(json.dumps(small, sort_keys=True).encode()).hexdigest()[:12]}.json"
-        path = os.path.join(VERIF_DIR, "replays", name)
+        path = os.path.join(replay_dir, name)
         with open(path, "w") as f:
             json.dump(rep, f, indent=1, sort_keys=True)
         rc, out = replay_fresh(path)
